@@ -1,5 +1,6 @@
 import CheetahModel.Proofs.DualProofs
 import CheetahModel.Proofs.DualSound
+import CheetahModel.Proofs.ReverseProofs
 /-!
 # C05 — autograd gradients equal the true derivatives and are finite  (partial)
 
@@ -8,8 +9,10 @@ correspondence check compares `torch.autograd.grad` of every entry of `Quadrupol
 parameter with the tangents of `quadMapDual` at `Dual Float` (they agree, guard points included).
 Proved here: away from the guard the tangents of the focusing functions are the true derivatives
 (`HasDerivAt`), so is the entry `R[1,0]`; at exactly `k1 = 0` the tangent is 0 although the derivative
-is not (known finding).  PyTorch's reverse-mode engine (NaN from `0·∞` in an unselected `where`
-branch) is not modelled: the falsifier (autograd vs central finite differences) covers it.
+is not (known finding).  PyTorch's reverse-mode engine is modelled over expression programs (`Reverse.lean`: a backward
+pass with the local partial derivatives of `derivatives.yaml`, both arms of a `where` receiving a cotangent) and tied to
+`torch.autograd.grad` by the correspondence `rev` — at `Float` the model reproduces the NaN from `0·∞` in an unselected
+`where` arm; over ℝ it is proved equal to forward mode for every program and to the derivative for every smooth one.
 -/
 namespace C05
 
@@ -59,5 +62,35 @@ theorem ad_sound_leaves (c x : ℝ) : Tracks (Dual.var x) (fun t => t) x ∧ Tra
 theorem drift_r56_energy_gradient (L E m : ℝ) (hm : 0 < m) (hE : m < E) :
     Tracks (driftR56 (Dual.const L) (Dual.var E) (Dual.const m)) (fun e => driftR56 L e m) E :=
   driftR56_energy_gradient L E m hm hE
+
+/-- **reverse mode = forward mode**: for every expression program, environment, output cotangent and accumulator, a
+backward pass adds `ct · (forward-mode tangent)` to the accumulator of every variable — no side condition -/
+theorem reverse_eq_forward (env : Nat → ℝ) (e : Ex ℝ) (ct : ℝ) (acc : Nat → ℝ) (j : Nat) :
+    Ex.back env e ct acc j = acc j + ct * (Ex.fwd env j e).d := Ex.back_eq env e ct acc j
+
+/-- forward mode carries value and partial derivative of every smooth program (induction over programs, `where` included) -/
+theorem forward_is_derivative (env : Nat → ℝ) (i : Nat) (e : Ex ℝ) (h : e.Smooth env) :
+    Tracks (Ex.fwd env i e) (fun t => Ex.val (Ex.upd env i t) e) (env i) := Ex.fwd_tracks env i e h
+
+/-- **the gradient reverse mode returns is the partial derivative**, for every program that is smooth at the point -/
+theorem reverse_is_gradient (env : Nat → ℝ) (e : Ex ℝ) (i : Nat) (h : e.Smooth env) :
+    HasDerivAt (fun t => Ex.val (Ex.upd env i t) e) (Ex.grad env e i) (env i) := Ex.grad_hasDerivAt env e i h
+
+/-- non-vacuity: the guard idiom `where(k == 0, L, sin(√k·L)/√k)` is smooth at every `k > 0` … -/
+example (k L : ℝ) (hk : 0 < k) :
+    (Ex.whereEq (.var 0) (.const 0) (.var 1)
+      (.div (.sin (.mul (.sqrt (.var 0)) (.var 1))) (.sqrt (.var 0))) : Ex ℝ).Smooth
+      (fun j => if j = 0 then k else L) := by
+  have hs : √k ≠ 0 := (Real.sqrt_pos.mpr hk).ne'
+  simp [Ex.Smooth, hk.ne', hs]
+
+/-- … and at the guard itself the model returns the derivative of the *selected* arm only (0 w.r.t. `k`): the finding
+`guard_kills_gradient_at_zero`, now as a statement about the reverse-mode gradient of a program -/
+theorem reverse_gradient_at_guard (L : ℝ) :
+    Ex.grad (fun j => if j = 0 then 0 else L)
+      (Ex.whereEq (.var 0) (.const 0) (.var 1)
+        (.div (.sin (.mul (.sqrt (.var 0)) (.var 1))) (.sqrt (.var 0))) : Ex ℝ) 0 = 0 := by
+  rw [Ex.grad_eq_fwd]
+  simp [Ex.sel_d, Scalar.sel, Ex.lit0]
 
 end C05
